@@ -11,8 +11,9 @@ from typing import Dict, Optional, Tuple
 from ..astutil import dotted, norm
 from ..cfg import CFG
 from ..core import Ctx, PropSpec, Unsupported
-from ..extract import (body_raises, calls, flatten_binop, fn_stmts, raises_type, range_guard, resolve_local, returns,
+from ..extract import (body_raises, calls, expand_straightline, flatten_binop, fn_stmts, raises_type, range_guard, resolve_local, returns,
                        single_def, stmt_site, where)
+from ..normalize import inline_helpers
 from ..program import AnchorMissing
 
 # CCSDS 133.0-B-2, 4.1.3: field -> (start bit, width) inside the 48-bit primary header
@@ -56,7 +57,7 @@ def accessor_table(ctx: Ctx) -> Dict[str, Tuple[Optional[int], Optional[int], as
 def pack_table(ctx: Ctx):
     """Returns (fi, {field: shift}, length_term_ast or None, to_bytes_call, header_expr)."""
     prog = ctx.prog
-    fi = prog.func(f"{PK}::create_ccsds_packet")
+    fi = inline_helpers(prog, prog.func(f"{PK}::create_ccsds_packet"))
     tb = None
     for c in calls(fi, attr="to_bytes"):
         tb = c
@@ -64,6 +65,12 @@ def pack_table(ctx: Ctx):
     if tb is None:
         raise AnchorMissing("no .to_bytes(...) call in create_ccsds_packet")
     recv = resolve_local(fi, tb.func.value)
+    if isinstance(recv, ast.Name):          # several definitions: an accumulation `h = a; h = h | b; ...`
+        recv0 = recv
+        recv = expand_straightline(fi, recv, tb)
+        ast.copy_location(recv, tb)
+        if isinstance(recv, ast.Name):
+            recv = recv0
     terms = flatten_binop(recv, ast.BitOr)
     if len(terms) == 1:
         terms = flatten_binop(recv, ast.Add)
@@ -210,7 +217,7 @@ def check(ctx: Ctx) -> None:
     if len(rets) == 1 and isinstance(rets[0].value, ast.Call) and \
             (dotted(rets[0].value.func) or "").split(".")[-1] == "RawPacketData" and rets[0].value.args:
         pk = resolve_local(fi, rets[0].value.args[0])
-        parts = flatten_binop(pk, ast.Add)
+        parts = [resolve_local(fi, x) for x in flatten_binop(pk, ast.Add)]
         if len(parts) == 2 and any(n is tb for n in ast.walk(parts[0])) and dotted(parts[1]) == "data":
             ok = True
         elif len(parts) >= 1:
@@ -252,8 +259,8 @@ def check(ctx: Ctx) -> None:
     for f, (rs, rw) in CCSDS.items():
         site = f"{fi.key}::range::{f}"
         if f not in ranges:
-            ctx.refuted("R13.range", site, f"no rejecting range check on {f} before the header is built",
-                        where=where(fi, fi.node))
+            ctx.unknown("R13.range", site, f"no rejecting range check on {f} recognised before the header is built "
+                                           f"(decided by the boundary table R13.w)", where=where(fi, fi.node))
             continue
         lo, hi, st = ranges[f]
         want = (0, 2 ** rw - 1)
@@ -262,7 +269,8 @@ def check(ctx: Ctx) -> None:
                    where=where(fi, st), got=[lo, hi], expected=list(want))
     site = f"{fi.key}::range::len(data)"
     if "len(data)" not in ranges:
-        ctx.refuted("R13.range", site, "no rejecting check on the data length", where=where(fi, fi.node))
+        ctx.unknown("R13.range", site, "no rejecting check on the data length recognised (decided by the boundary table "
+                                       "R13.w)", where=where(fi, fi.node))
     else:
         lo, hi, st = ranges["len(data)"]
         ctx.decide((lo, hi) == (1, 65536), "R13.range", site, "data length accepted in [1, 65536] = [0, 2**16-1] + 1",
@@ -435,6 +443,8 @@ SPEC = PropSpec(
     check=check,
     floors={"R13.accessor": 6, "R13.pack": 6, "R13.range": 7, "R13.reject-type": 7, "R13.length-term": 1,
             "R13.framer-length": 1, "R13.to-bytes": 1, "R13.concat": 1, "R13.w": 1},
+    fallback={r: ("R13.w",) for r in ("R13.pack", "R13.range", "R13.concat", "R13.length-term", "R13.to-bytes",
+                                      "R13.reject-type", "R13.reject-dominates", "R13.framer-length")},
     explanation=("Table agreement by constant folding: the 48-bit OR-tree of create_ccsds_packet (field -> shift), "
                  "its rejecting range checks (field -> accepted closed range), the RawPacketData accessor windows "
                  "(field -> start,width), data_length, header_values and the framer's length read are extracted from "
